@@ -1,3 +1,4 @@
+import Chartparse.Proofs.ChartCompose
 import Chartparse.Proofs.TrackProofs
 import Chartparse.Proofs.StarPower
 /-! Property theorems of C05 (statements only; helper lemmas live in `Proofs/`). -/
@@ -40,5 +41,17 @@ theorem C05_track :
     (hs : sps.Pairwise (fun a b => a.tick ≤ b.tick)) (hts : (ns.map (·.tick)).Pairwise (· ≤ ·)),
     ns.map (·.sp) = ns.map (fun n => firstCovering n.tick sps) :=
   @Chartparse.Inst.C05_track
+
+/-- **the notes of every track of every returned chart** are `buildNotes` of the tick groups of the N lines of one of the
+    text's own instrument sections, against that section's own S lines, the chart's resolution and the chart's tempo map,
+    starting with no previous note and both cursors at zero — so `NotesOf` holds and with it every track-level theorem
+    (C02 ticks/lanes, C03 sustains, C04 HOPO rule, C05 star power, C11 timestamps) -/
+theorem C05_chart :
+    ∀ (secs : Sections) (want : Option (List (Nat × Nat))) (c : Chart)
+    (h : parseSections secs want = .ok c) (rt : RoutedTrack) (hrt : rt ∈ c.tracks),
+    ∃ tag lines, (tag, lines) ∈ secs ∧ (routeOf tag).isSome = true ∧
+      buildNotes c.res c.sync.bpms (sectionPhrases lines) (groups (sectionNotes lines)) none 0 0 = .ok rt.track.notes ∧
+      NotesOf c.res c.sync.bpms (sectionPhrases lines) (groups (sectionNotes lines)) none 0 0 rt.track.notes :=
+  @Chartparse.chart_track_notes
 
 end Chartparse.Props.C05
